@@ -184,10 +184,12 @@ def walk(root, segs, absent_at=None):
 
 
 def expand(root, segs):
-    """all destinations reached by segs that may contain 'x' steps (entries where later steps fail
-    are dropped); flat list in traversal order"""
-    cur = [root]
-    for op, arg in segs:
+    """all destinations reached by segs that may contain 'x' steps; flat list in traversal order.
+    Steps BEFORE the first wildcard are ordinary (raise Absent); after a wildcard, entries for which a
+    later step fails are dropped"""
+    first = next((i for i, (op, _) in enumerate(segs) if op in ('x', 'X')), len(segs))
+    cur = [walk(root, segs[:first])]
+    for op, arg in segs[first:]:
         nxt = []
         if op == 'x':
             for c in cur:
@@ -223,7 +225,10 @@ def model_assign(root, segs, val, factory=None, absent_at=None):
     if has_wild(segs):
         if lop in ('x', 'X'):
             return ('error', 'wildcard last')
-        dests = expand(root, prefix)
+        try:
+            dests = expand(root, prefix)
+        except Absent:
+            return ('error', 'missing parent before the wildcard')
         done = 0
         for d in dests:
             try:
@@ -276,7 +281,10 @@ def model_delete(root, segs):
     if has_wild(segs):
         if lop in ('x', 'X'):
             return ('other', 'wildcard last')
-        dests = expand(root, prefix)
+        try:
+            dests = expand(root, prefix)
+        except Absent:
+            return ('missing-parent',)
         done = 0
         for d in dests:
             try:
